@@ -446,6 +446,23 @@ def lifecycle_check(prop, tier):
                                 "trace_rejected_at": reached, "first_unmatched_event": first_bad,
                                 "events": evs[max(0, reached - 12):reached + 3]})
     run.sample({"trace_event": next((e for e in groups.get(1, []) if e["ev"] == "Write"), None)})
+    if prop == "C07":
+        # the same line on many threads: each lifetime is a critical section (install = count from zero, calls, verdict
+        # under the guard), so no lifetime may see another one's calls
+        hr = [{"id": k + 1, "mode": "helper", "threads": th, "rounds": rr, "site": 22, "n": 1, "k_match": 1, "k_nomatch": 0}
+              for k, (th, rr) in enumerate([(8, 3000), (16, 1500)] if tier == "quick" else [(8, 40000), (16, 20000), (2, 50000)])]
+        hg, _, _ = vlib.run_harness("times", hr, "times_C07", timeout=3000)
+        tvh = tlc.validate_traces("Trace_Times", "Trace_Times", [(r["id"], hg.get(r["id"], [])) for r in hr], WORK, "trace_times_C07", timeout=3000)
+        run.traces += len(tvh["accepted"])
+        run.states += tvh["states"]
+        run.transitions += tvh["transitions"]
+        run.extra["shared_line_threads"] = {"runs": len(hr), "accepted": len(tvh["accepted"])}
+        for r in hr:
+            run.note_case("shared line threads=%s lifetimes=%s" % (r["threads"], r["rounds"]))
+            if r["id"] not in tvh["accepted"]:
+                evs = hg.get(r["id"], [])
+                run.violation("C07 shared line on %s threads: a lifetime's verdict saw another lifetime's calls" % r["threads"],
+                              {"round": r, "events": [e for e in evs if e["ev"] in ("Helper", "ChildExit")]})
     if prop in ("C02", "C03", "C12"):
         placement_part(run, prop, tier)
     if prop == "C12":
@@ -664,6 +681,27 @@ def placement_check(prop, tier):
                            "events": [e for e in evs if e["ev"] in ("Place", "Installed", "Called", "Dropped", "ChildExit", "Neighbour")]})
     for sc in live[:3]:
         run.sample({"placement": sc, "installed": next((e for e in groups.get(sc["id"], []) if e["ev"] == "Installed"), None)})
+    if prop == "C01":
+        # "a call arrives at the replacement" when the function already carries other replacements: every behaviour of the
+        # three-installation generator (A, B, A patterns over two fakes and a forced boolean, one or two functions), replayed
+        # on real functions; after every installation every function is called and must answer as the specification says
+        h3, g3 = gen_behaviours("MC_LifecycleApi_q3", timeout=3000)
+        run.states += g3["distinct"]
+        run.transitions += g3["generated"]
+        lscen = [hist_to_scenario(h, i, "rust", 2, diff=False) for i, h in enumerate(h3, 1)]
+        lg, lo, _ = vlib.run_harness("lifecycle", lscen, "lifecycle_C01")
+        nre = 0
+        for i, h in enumerate(h3, 1):
+            if i in vlib.NOT_RUN:
+                continue
+            run.note_case("refake " + history_key(h))
+            bad = [b for b in compare_replay(h, lg.get(i, []), 2) if b[0] in ("C01", "CRASH") or (b[0] == "C02" and "while installed" in b[1])]
+            if bad:
+                run.violation("C01 history=%s" % history_key(h), {"behaviour": h, "scenario": lscen[i - 1], "mismatch": bad})
+            else:
+                nre += 1
+                run.traces += 1
+        run.extra["refake_histories"] = {"behaviours": len(h3), "agree": nre}
     if prop == "C01":
         # simulated addresses (patch_amd64.rs against a simulated memory): entry displacements beyond +/-2 GiB (the
         # 12-byte entry patch of the Windows-style window) and fakes in the upper half of the 64-bit range
@@ -1421,7 +1459,7 @@ def sig_check(prop, tier):
         run.traces += len(tva["accepted"])
         run.states += tva["states"]
         run.transitions += tva["transitions"]
-        if sum(1 for e in aevs if e["ev"] == "AsyncPair") < 49:
+        if sum(1 for e in aevs if e["ev"] == "AsyncPair") < 81:
             raise ToolError("vacuity guard: async pairs did not run")
         for sid, ev1 in aper:
             e = ev1[0]
